@@ -13,6 +13,7 @@ import (
 	"encoding/json"
 	"fmt"
 	"os"
+	"runtime"
 	"sort"
 	"strings"
 	"time"
@@ -251,7 +252,7 @@ func worker(raw json.RawMessage) (json.RawMessage, error) {
 		} else {
 			in.Proxy.Arm(nil, snapBase)
 		}
-	case "fault":
+	case "fault", "die":
 		in.Proxy.Arm(j.Fault, snapBase) // nil fault = the batch as it is, under a schedule policy
 	}
 	fmt.Fprintf(os.Stderr, "@@J-APPLY %s reject=%v fault=%v\n", st.op.Name, exp.Reject, j.Fault)
@@ -269,8 +270,52 @@ func worker(raw json.RawMessage) (json.RawMessage, error) {
 			}
 		}
 	}
-	got := in.ApplySettled(st.op)
+	var got sl.Result
+	var died any
+	baseGoroutines := runtime.NumGoroutine()
+	func() {
+		defer func() { died = recover() }()
+		got = in.ApplySettled(st.op)
+	}()
 	in.Proxy.Hook = nil
+	if j.Kind == "die" {
+		res.Fired = in.Proxy.Fired()
+		if died == nil {
+			// the operation is not issued by the goroutine that called Write: its death is the crash image
+			res.Outcome = fmt.Sprint(j.Case, "not-on-caller")
+			in.Proxy.Arm(nil, snapBase)
+			return json.Marshal(res)
+		}
+		if died != faultx.ErrPanicInjected {
+			panic(died)
+		}
+		// the caller unwound (deferred functions ran); the process is gone. What is in the file?
+		in.Settle(baseGoroutines)
+		img := in.Proxy.Snapshot()
+		in.Proxy.Arm(nil, snapBase)
+		in.Shard = nil // the dead instance is not touched again (its locks may be held forever)
+		label := "by a panic at " + faultStr(j.Fault) + " on the goroutine that issued the batch"
+		ci, err := sl.OpenImage(st.cfg, img)
+		if err != nil {
+			res.v("crash-image-unreadable", "image taken after a death %s cannot be opened: %v", label, err)
+		} else {
+			obs, err := ci.Observe(universe, obsQueries(), true)
+			res.Checks++
+			res.Images = 1
+			if err != nil {
+				res.v("crash-image-unreadable", "image taken after a death %s: %v", label, err)
+			} else if obs != before {
+				res.v("death-by-panic-shows-partial-batch", "a process death %s of batch %q leaves a database that differs from the state before the batch:\n before: %s\n image:  %s", label, st.op.Name, clip(before), clip(obs))
+			}
+			ci.Shard.Close()
+		}
+		os.Remove(img)
+		res.Outcome = fmt.Sprint(j.Case, "died", len(res.Viols))
+		return json.Marshal(res)
+	}
+	if died != nil {
+		panic(died)
+	}
 	res.Failed = got.Err != nil
 	res.Fired = in.Proxy.Fired()
 	txCounts := in.Proxy.TxCounts()
@@ -374,7 +419,7 @@ func clip(s string) string {
 }
 
 func master(cfg *harness.Config, rep *harness.Report) {
-	rep.Rule = "cases = start state {empty, 3 points warm, 3 points reopened cold} x batch {insert 1, insert 3, update every indexed field of 2 points, remove every indexed field, delete 2, and the validation rejections: duplicate id in batch, existing id last of 3 (with a document, and as a point without any data), merged document over MaxPointSize, wrong field type; an insert of 10000 points (accepted, and rejected at its last point: four fault ordinals per bucket and kind); plus an index whose construction fails}; per case a counting run, then one run per fault point = every (bucket, kind in {Put, Delete, ForEach, Scan, BucketOpen, TxBegin}, ordinal) the batch issues, failing exactly that operation; the first and last ordinal of every (bucket, kind) and the fault-free batch additionally under two schedule policies (index pipelines held back / point store held back); and one run that takes a crash image of the file at every storage operation, when the transaction function returned, and after commit. Oracle: a failed call leaves observation battery + raw bucket digest identical to before, on the running instance and after reopen; a successful call equals the reference model; crash images before commit equal the state before, after commit the model after; storage use after transaction end is recorded by the proxy. distinct_nontrivial = fault points that fired"
+	rep.Rule = "cases = start state {empty, 3 points warm, 3 points reopened cold} x batch {insert 1, insert 3, update every indexed field of 2 points, remove every indexed field, delete 2, and the validation rejections: duplicate id in batch, existing id last of 3 (with a document, and as a point without any data), merged document over MaxPointSize, wrong field type; an insert of 10000 points (accepted, and rejected at its last point: four fault ordinals per bucket and kind); plus an index whose construction fails}; per case a counting run, then one run per fault point = every (bucket, kind in {Put, Delete, ForEach, Scan, BucketOpen, TxBegin}, ordinal) the batch issues, failing exactly that operation; the first and last ordinal of every (bucket, kind) and the fault-free batch additionally under two schedule policies (index pipelines held back / point store held back); one run that takes a crash image of the file at every storage operation, when the transaction function returned, and after commit; and one run per storage operation (reads included) in which the process dies by a panic raised at that operation on the goroutine that issued the batch, so that every deferred function between the operation and the caller runs before the file is inspected (operations issued by other goroutines die without unwinding: their death is the crash image). Oracle: a failed call leaves observation battery + raw bucket digest identical to before, on the running instance and after reopen; a successful call equals the reference model; crash images before commit and the file left by a death by panic equal the state before, after commit the model after; storage use after transaction end is recorded by the proxy. distinct_nontrivial = fault points that fired"
 	rep.Assumptions = []string{"Get cannot return an error in the storage API: reads are counted, not failed", "bbolt's own commit (page writes + fsync) is atomic: torn pages inside a commit are not enumerated", "goroutine interleavings inside the batch are those the real scheduler produced (schedule policies: see DESIGN.md)"}
 	p := pool.New(pool.Options{CPUsPerWorker: 2, JobTimeout: 90 * time.Second})
 	run := func(jobs []job) []pool.Result {
@@ -418,6 +463,7 @@ func master(cfg *harness.Config, rep *harness.Report) {
 	}
 	var fjobs []job
 	faultPoints := 0
+	diePoints := 0
 	for i, r := range run(cjobs) {
 		res := absorb(rep, cjobs[i], r)
 		if res == nil {
@@ -430,13 +476,22 @@ func master(cfg *harness.Config, rep *harness.Report) {
 		sort.Strings(keys)
 		for _, k := range keys {
 			bucket, kind, _ := strings.Cut(k, "|")
-			if kind == faultx.KGet || kind == faultx.KReturn || kind == faultx.KEnd {
+			if kind == faultx.KReturn || kind == faultx.KEnd {
 				continue
 			}
 			n := res.Counts[k]
 			step := 1
 			if big := strings.Contains(cjobs[i].Case.Batch, "10000"); big {
 				step = max(1, (n-1)/3) // a 10000-point batch: four ordinals per (bucket, kind) incl. first and last
+			}
+			// the process dies by a panic at this operation (reads included); only operations issued
+			// by the goroutine that called Write unwind through the transaction's deferred functions
+			for ord := 1; ord <= n; ord += step {
+				fjobs = append(fjobs, job{Kind: "die", Case: cjobs[i].Case, Fault: &faultx.Fault{Tx: 1, Bucket: bucket, Kind: kind, Ordinal: ord, Action: "panic"}})
+				diePoints++
+			}
+			if kind == faultx.KGet {
+				continue
 			}
 			for ord := 1; ord <= n; ord += step {
 				f := &faultx.Fault{Tx: 1, Bucket: bucket, Kind: kind, Ordinal: ord, Action: "fail"}
@@ -462,15 +517,19 @@ func master(cfg *harness.Config, rep *harness.Report) {
 	}
 	rep.Set("cases", len(cases))
 	rep.Set("fault_points", faultPoints)
+	rep.Set("panic_points", diePoints)
 	fired := 0
 	images := 0
+	deaths := 0
 	for i, r := range run(fjobs) {
 		if cfg.Expired() {
 			rep.NotExhaustive("internal deadline")
 		}
 		res := absorb(rep, fjobs[i], r)
 		if res != nil {
-			if res.Fired {
+			if res.Fired && fjobs[i].Kind == "die" {
+				deaths++
+			} else if res.Fired {
 				fired++
 			}
 			images += res.Images
@@ -479,6 +538,7 @@ func master(cfg *harness.Config, rep *harness.Report) {
 	rep.DistinctNontrivial = int64(fired)
 	rep.Set("fault_points_fired", fired)
 	rep.Set("crash_images_checked", images)
+	rep.Set("deaths_by_panic_on_the_calling_goroutine", deaths)
 	rep.Sample(fjobs[0])
 	rep.Sample(fjobs[len(fjobs)/2])
 	rep.Sample(fjobs[len(fjobs)-1])
